@@ -44,16 +44,6 @@ theorem poly_centroid_exact {S : List (Tri ℝ)} {Ts : List (Tet ℝ)}
 
 /-! ### inertia (Kallay, signed determinants) -/
 
-theorem vol_translate (Ts : List (Tet ℝ)) (c : V3 ℝ) :
-    Spec.vol (Ts.map (Tet.map (· - c))) = Spec.vol Ts := by
-  rw [Spec.vol_eq, Spec.vol_eq, List.map_map]
-  congr 1
-  apply List.map_congr_left
-  intro T _
-  obtain ⟨⟨ax,ay,az⟩,⟨bx,b_y,bz⟩,⟨cx,cy,cz⟩,⟨dx,dy,dz⟩⟩ := T
-  obtain ⟨c1,c2,c3⟩ := c
-  simp only [Function.comp, Spec.tetVol]; unfold_model; ring
-
 theorem kal_sum {S : List (Tri ℝ)} {Ts : List (Tet ℝ)} (c : V3 ℝ)
     (h : ChainEq S (Ts.flatMap Tet.bdry)) (i j : Nat) (hi : i < 3) (hj : j < 3) :
     sumOver (kalPhi i j) (S.map (Tri.map (· - c))) = Spec.second (Ts.map (Tet.map (· - c))) i j := by
